@@ -92,6 +92,18 @@ NOTES = {
     "C05_8": ("only no-failing-input-found at first run (754 correspondence mismatches: an extra empty block per removed log): the scripted node gave removed logs the canonical block hash",
               "harness/c05: every second removed log carries the hash of the block it was removed from (an orphan hash), as a real node reports it; "
               "the unchanged downloader drops removed logs before it looks at them, so nothing else moves"),
+    "C09_7": ("MISSED at first run: the check drove the PP flow and the direct build only; the guard of the aggchain-prover flow (CheckIfClaimsArePartOfFinalizedL1InfoTree) was not exercised",
+              "harness/c09 + Model/C09Cases.v: for every case with a named root the real guard is asked about (root, claims) and spec demands that it accepts "
+              "iff every claim's global exit root is a leaf that root covers (the guard is what puts that flow's certificates inside the quantifier)"),
+    "C09_8": ("MISSED at first run: one attempt per querier, so nothing an earlier attempt leaves behind could matter",
+              "harness/c09: every suitable case again after a warm-up attempt made by the same querier / flow while the node reported the first L1 block as "
+              "finalized, once as scripted and once with the finalized query failing; the node's finalized block is now part of the case also when the "
+              "query for it fails (i_fin_fails), so spec judges a certificate built on a stale pointer against the true finalized history"),
+    "C11_8": ("not reported by C11 at first run (its stream has no reorgs: the property's quantifier is L1 histories; reorgs are C04's); reported by C04's L1 info "
+              "tree part with a concrete failing input",
+              "harness/l1info: a directed C11 history (two rollups verified with the same exit root in different blocks, the later block reorganised away, "
+              "further verifications on the new fork) => C11 reports the broken correspondence (no-failing-input-found: spec_c11 is stated for histories "
+              "without reorgs); the concrete failing input is C04's"),
     "C16_7": ("MISSED at first run: the largest jump of the tip between two polls was exactly 5000 blocks, the change caps a query at 5000 blocks and skips the rest",
               "harness/c16: two fixed histories whose tip jumps by 5001 blocks under a running downloader and by 7000 blocks at a restart, roots and a removal "
               "in every thousand of the gap"),
@@ -141,6 +153,12 @@ def main():
             det[pid] = ("concrete failing input" if any("no-failing-input-found" not in l for l in vio)
                         else "no-failing-input-found" if vio else "not reported")
         first, strengthening = NOTES.get(name, ("caught at first run", ""))
+        # the check that reports the change with a concrete failing input: the one of its own property, else another recorded one
+        by = prop
+        if det.get(prop) != "concrete failing input":
+            others = [k for k, v in sorted(det.items()) if v == "concrete failing input"]
+            if others:
+                by = others[0]
         meta = {
             "seed": name, "property": prop, "title": title,
             "needs_to_manifest": needs,
@@ -154,9 +172,9 @@ def main():
                        "alone; TestStartProfilingHttpServer binds the fixed port 6060 and fails whenever two suites run at once: environmental), "
                        "demo test with and without the patch",
             },
-            "detection": {"check": prop, "first_run": first, "strengthening": strengthening,
+            "detection": {"check": by, "first_run": first, "strengthening": strengthening,
                           "recorded_runs_of_tools_seedtest": det,
-                          "now": "tools/seedtest.sh /verif/seeded/%s %s => VIOLATION property=%s with a concrete failing input (replay)" % (name, prop, prop)},
+                          "now": "tools/seedtest.sh /verif/seeded/%s %s => VIOLATION property=%s with a concrete failing input (replay)" % (name, by, by)},
         }
         json.dump(meta, open(os.path.join(d, "meta.json"), "w"), indent=1)
         print("wrote", name, det)
